@@ -241,6 +241,8 @@ def shrink_fa(case):
         yield mk(finals=[x for x in case["finals"] if x != s])
     if case.get("extra_symbols"):
         yield mk(extra_symbols=[])
+    if case.get("eps_string_edge"):
+        yield mk(eps_string_edge=None)
     if case.get("ctor"):
         yield mk(ctor=False)
     for i, t in enumerate(case["trans"]):
